@@ -330,3 +330,37 @@ Theorem resize_ref_reach : forall st i a vb n j idx e v st1, reachable st ->
   elems st1 i = Some (map RVal (firstn n (vec_cells st vb) ++ repeat v (n - length (vec_cells st vb)))).
 Proof. intros st i a vb n j idx e v st1 R. apply resize_ref_lemma. apply reach_wf; exact R. Qed.
 Print Assumptions resize_ref_reach.
+
+(* ------------------------------------------------------------ accessors return locations of the source *)
+(* a view built over source container k: the location of its element j IS cell j of the container's buffer *)
+Lemma view_location_lemma st i k st1 b :
+  step_new st (FromSrc i KView k) = Some st1 -> nth_error (srcs st) k = Some (Some b) ->
+  exists a, slot_at st1 i = SView a /\ forall j, j < a_len a -> arr_loc a j = Some (b, j).
+Proof.
+  unfold step_new. cbn [step]. unfold whole, src_buf. intros H Hs. rewrite Hs in H.
+  destruct (nth_error (heap st) b) as [bu|] eqn:Hb; [|discriminate].
+  destruct (b_alive bu); [|discriminate].
+  unfold build in H. destruct (slot_free st i) eqn:Hf; [|discriminate].
+  injection H as <-. exists (set_ptr (Some (b, 0)) (length (b_cells bu))). split.
+  - apply slot_at_set. unfold slot_free, slot_in_range in Hf. apply andb_true_iff in Hf as [Hf _].
+    apply Nat.ltb_lt in Hf. exact Hf.
+  - intros j Hj. unfold set_ptr in *. cbn [a_len] in Hj. unfold arr_loc. cbn [a_ptr].
+    destruct (Nat.eqb (length (b_cells bu)) 0) eqn:E; [apply Nat.eqb_eq in E; lia|]. reflexivity.
+Qed.
+
+(* a write to element j of the source container is seen through a reference held to that location *)
+Lemma held_reference_follows_source st k j v st2 b :
+  step_new st (SrcWrite k j v) = Some st2 -> nth_error (srcs st) k = Some (Some b) ->
+  read_loc (heap st2) (Some (b, j)) = RVal v.
+Proof.
+  unfold step_new. cbn [step]. unfold src_buf. intros H Hs. rewrite Hs in H.
+  destruct (nth_error (heap st) b) as [bu|] eqn:Hb; [|discriminate].
+  destruct (b_alive bu) eqn:Ha; [|discriminate].
+  destruct (j <? length (b_cells bu)) eqn:Hj; [|discriminate]. apply Nat.ltb_lt in Hj.
+  injection H as <-. unfold read_loc, read_cell. cbn [heap with_heap].
+  unfold hset. rewrite nth_error_hmod. rewrite Nat.eqb_refl. rewrite Hb. cbn [option_map].
+  unfold b_alive in *. cbn [b_rc b_cells]. rewrite Ha. rewrite Nat.add_0_r.
+  rewrite nth_error_upd_eq by exact Hj. reflexivity.
+Qed.
+Print Assumptions view_location_lemma.
+Print Assumptions held_reference_follows_source.
